@@ -94,6 +94,8 @@ def encode_run(idx, obs):
     votes = []     # (kind, h, r, id, signer) signed by the correct validators' strategies
     for i in correct:
         for d in obs.get("decisions", {}).get(str(i), []):
+            if d[2] not in ("prevote", "precommit"):
+                continue
             kind = "Prevote" if d[2] == "prevote" else "Precommit"
             votes.append((kind, int(d[0]), int(d[1]), ids.get(d[3]), i))
     votes = sorted(set(votes))
